@@ -603,7 +603,7 @@ fn c16(args: &Args) -> ! {
     let mut rep = Report::new(
         "seqmc",
         "C16",
-        "every sequence of length <=3 (quick) / <=4 (thorough) over {A low entropy, B high entropy, A again, empty} x hint {Yes,No,Detect} for every compression {none,lz4,lzma,zstd} x adder {direct,cached} x packaging {bare, one-file}; the produced bytes are decoded by the independent decoder (own CRC, codec crates) and each content's cluster compression, verbatim bytes / decompressed bytes, address sharing and content count are compared with the property; plus non-initial states (clusters 0..1 blobs short of the 4095-blob limit, raw and/or compressed) followed by every sequence of length <=2 over {A, empty} x {Yes, No}; non-trivial = at least one content with hint Yes or No",
+        "every sequence of length <=3 (quick) / <=4 (thorough) over {A low entropy, B high entropy, A again, empty} x hint {Yes,No,Detect} for every compression {none,lz4,lzma,zstd} x adder {direct,cached} x packaging {bare, one-file}; the produced bytes are decoded by the independent decoder (own CRC, codec crates) and each content's cluster compression, verbatim bytes / decompressed bytes, address sharing and content count are compared with the property; plus contents handed over as whole files and as sub-ranges of files (explicit hints, 3 lengths, alone and second); plus non-initial states (clusters 0..1 blobs short of the 4095-blob limit, raw and/or compressed) followed by every sequence of length <=2 over {A, empty} x {Yes, No}; non-trivial = at least one content with hint Yes or No",
     );
     let mut acc = Acc { states: BTreeSet::new(), transitions: BTreeSet::new(), conformed: 0, multi: 0, mixed: 0, widths: BTreeSet::new() };
     if let Some(p) = &args.replay {
@@ -656,6 +656,21 @@ fn c16(args: &Args) -> ! {
         for len in [1usize, 250, 255, 256, 65_530, 65_535, 65_536] {
             for hint in [Hint::Yes, Hint::No] {
                 scs.push(Scenario { comp, cached: false, packaging: Packaging::Bare, pre: Pre::none(), items: vec![Item { len, entropy: Entropy::High, hint, src: Src::Memory, tag: 4 }] });
+            }
+        }
+    }
+    // contents handed over as files and as sub-ranges of files (the raw path copies from the file
+    // itself, the compressed path reads through the reader): explicit hints, alone and after
+    // another content
+    for comp in [Comp::None, Comp::Lz4(3), Comp::Zstd(5)] {
+        for src in [Src::FileWhole, Src::FileRange] {
+            for hint in [Hint::Yes, Hint::No] {
+                for len in [1usize, 3000, 70_000] {
+                    let it = Item { len, entropy: Entropy::Low, hint, src, tag: 30 };
+                    scs.push(Scenario { comp, cached: false, packaging: Packaging::Bare, pre: Pre::none(), items: vec![it.clone()] });
+                    let first = Item { len: 10, entropy: Entropy::Low, hint, src: Src::Memory, tag: 31 };
+                    scs.push(Scenario { comp, cached: len == 3000, packaging: Packaging::Bare, pre: Pre::none(), items: vec![first, it] });
+                }
             }
         }
     }
